@@ -202,7 +202,7 @@ func TestVerifInformer(t *testing.T) {
 		f := NewSharedInformerFactory(dyn, 10*time.Minute)
 		rec := &recorder{}
 		subs := []*subState{}
-		instance := []int{0, 0}   // informer instances started so far per resource
+		instance := []int{0, 0} // informer instances started so far per resource
 		running := []bool{false, false}
 		openCount := []int{0, 0}
 		nextHandler := 0
@@ -242,7 +242,9 @@ func TestVerifInformer(t *testing.T) {
 					// wait until the new informer has listed and its watch is established
 					wBefore := countLog(sim, "watch", infDefs[res].Resource)
 					_ = wBefore
-					waitFor(func() bool { return ri.Informer().HasSynced() && countLog(sim, "watch", infDefs[res].Resource) >= instance[res] }, 5*time.Second)
+					waitFor(func() bool {
+						return ri.Informer().HasSynced() && countLog(sim, "watch", infDefs[res].Resource) >= instance[res]
+					}, 5*time.Second)
 				}
 				openCount[res]++
 				subs = append(subs, &subState{res: res, ri: ri, instance: instance[res], open: true})
